@@ -27,6 +27,18 @@ records, containers, read-back) and Trace_SqwContent.tla (judge of decoded files
    TLC (Trace_SqwContent) then validates every block event against the declarative content: id runs
    = <<1, 9N>>, counts, index bases, shared objects, shapes, and `reader dimension = written dimension`
    for every field the package's reader labels with a unit.
+3. How things are handed over varies without changing WHAT is supplied: integer-typed (int64 / int32)
+   and float32 energies, angles, scales, ranges, offsets, bin counts and display axes; float32 momentum
+   rows in the unit of the file; the pixel table as a slice / every second element / a column of a
+   larger array; another dimension name; run ids in decreasing or arbitrary order; blank-edged and
+   number-like strings; header n_dims 0..4; the byte order as enum member; a path that already holds a
+   longer file; create() called twice.
+4. History (the model's Rebuild step and `held` variable; negative controls "inplace", "sortruns"):
+   an unjudged first file is written from single-precision rows in convertible units before anything
+   is judged; every few configurations a SECOND file is built from the very same parameter objects
+   (other target, byte order, chunk, call order); every block is read twice from the same open file,
+   first in reversed table order, and the second read must equal the first; at the end a sample of the
+   configurations is written and judged again in reversed order.
 """
 
 from __future__ import annotations
@@ -51,32 +63,66 @@ PIX_KINDS = ('pix',)
 
 
 def _brief(cfg):
-    return {k: cfg[k] for k in ('calls', 'npix', 'nruns', 'chunk', 'bo', 'where', 'n_dims')} | {
+    return {k: cfg.get(k) for k in ('calls', 'npix', 'nruns', 'chunk', 'bo', 'where', 'n_dims', 'prev', 'twice',
+                                    'pix_view', 'pix_dim', 'bo_enum')} | {
         'pix_recipe': cfg['pix'], 'emode': cfg['exps'][0]['emode'], 'energy_class': L.energy_class(cfg), 'samp': cfg['samp'],
-        'title_len': len(cfg['title'])}
+        'title_len': len(cfg['title']), 'run_ids': [e['run_id'] for e in cfg['exps']],
+        'exp_num': [e.get('num') for e in cfg['exps']], 'dnd_num': cfg['dnd'].get('num'),
+        'nbins_dt': cfg['dnd'].get('nbins_dt'), 'dax_dt': cfg['dnd'].get('dax_dt')}
 
 
-def _one_file(ctx, cfg, tid, events, cfgs):
-    b = L.build_file(cfg, ctx.tmp, f'c{tid}')
+HISTORY = {1: '', 2: ' [second file built from the same parameter objects]', 3: ' [written again at the end of the run]'}
+
+
+def _one_file(ctx, cfg, tid, events, cfgs, objs=None, gen=1):
+    """Build, decode twice, append the events.  Returns the parameter objects handed to the builder."""
+    b = L.build_file(cfg, ctx.tmp, f'c{tid}', objs=objs)
     if b.error is not None:
         ctx.violation(f'SqwBuilder raised {type(b.error).__name__} for an admissible configuration '
-                      f'[{L.input_class(cfg)}]', {'cfg': _brief(cfg), 'exc': repr(b.error)})
+                      f'[{L.input_class(cfg)}]{HISTORY[gen]}', {'cfg': _brief(cfg), 'exc': repr(b.error)})
         L.cleanup(b)
         return
     dec = D.decode_file(b.data)
     op = L.open_package(b, read_blocks=True)
     if op['out'] != 'ok' or dec.error:
-        ctx.violation('file cannot be opened / table cannot be parsed', {'cfg': _brief(cfg), 'open': op.get('exc'),
-                                                                        'decoder': dec.error})
+        ctx.violation('file cannot be opened / table cannot be parsed' + HISTORY[gen],
+                      {'cfg': _brief(cfg), 'open': op.get('exc'), 'decoder': dec.error})
         L.cleanup(b)
         return
     evs = [L.normalise_event(e) for e in L.content_events(b, dec, op, tid)]
+    for e in evs:
+        e['gen'] = gen
     L.cleanup(b)
     events.extend(evs)
     cfgs[tid] = cfg
     nontrivial = ('pix' in cfg['calls'] and cfg['npix'] > 0) or bool({'inst', 'samp', 'dnd'} & set(cfg['calls']))
     ctx.case(nontrivial_id=(tid,) if nontrivial else None)
-    return evs
+    return b.objs
+
+
+def _other_target(rng, cfg):
+    """The same content once more - for a file built from the SAME parameter objects: other target, file
+    name, byte order, chunk size, title and call order."""
+    c2 = dict(cfg)
+    c2['where'] = 'file_path' if cfg['where'] == 'bytesio' else rng.choice(['bytesio', 'file_str'])
+    c2['fname'] = 'second_' + cfg['fname'][:100]
+    c2['subdirs'] = ['elsewhere']
+    c2['bo'] = {'little': 'big', 'big': 'little', 'native': 'big'}[cfg['bo']]
+    c2['chunk'] = rng.choice([None, 1, 2, 7, 9, 10, max(cfg['npix'] // 2, 1), cfg['npix'] + 1])
+    if c2['chunk'] is not None and cfg['npix'] // c2['chunk'] > 3000:
+        c2['chunk'] = None
+    c2['title'] = L.rand_string(rng, L.rand_len(rng, 60))
+    calls = list(cfg['calls'])
+    rng.shuffle(calls)
+    c2['calls'] = calls
+    c2['prev'], c2['twice'] = 0, False
+    return c2
+
+
+def _content_id(cfg):
+    """Identity of WHAT is supplied (shared by a configuration, its second build and its repetition)."""
+    return (cfg['pix']['seed'], cfg['npix'], cfg['nruns'], tuple(e['run_id'] for e in cfg['exps']),
+            cfg['exps'][0]['filename'], cfg['samp']['name'], cfg['dnd']['axes_title'], tuple(sorted(cfg['calls'])))
 
 
 def _corruption_control(ctx):
@@ -84,9 +130,9 @@ def _corruption_control(ctx):
     id missing, a run id off by one and a value labelled with a foreign dimension."""
     import copy
 
-    pix = {'ev': 'pix', 'src': 'dec', 'tid': 0, 'avail': True, 'n': 20, 'nrows': 9, 'npix': 20, 'present': 20,
+    pix = {'ev': 'pix', 'src': 'dec', 'tid': 0, 'gen': 1, 'rpass': 1, 'avail': True, 'n': 20, 'nrows': 9, 'npix': 20, 'present': 20,
            'runs': [[1, 180]], 'namb': 0, 'total': 180, 'hasids': False, 'ids': []}
-    exp = {'ev': 'exp', 'src': 'pkg', 'tid': 0, 'avail': True, 'nruns': 2, 'count': 2, 'supplied': [3, 4],
+    exp = {'ev': 'exp', 'src': 'pkg', 'tid': 0, 'gen': 1, 'rpass': 1, 'avail': True, 'nruns': 2, 'count': 2, 'supplied': [3, 4],
            'found': [3, 4], 'base': 0, 'emode': [1, 1], 'emode_supplied': [1, 1], 'angles_in_degree': False,
            'serial_ok': True, 'efix_ok': True, 'en_ok': True, 'ang_ok': True, 'uv_ok': True, 'str_ok': True,
            'dims': [['efix', 'energy'], ['en', 'energy'], ['psi', 'angle'], ['exp_u', 'dimensionless']]}
@@ -96,17 +142,22 @@ def _corruption_control(ctx):
     exp_bad['found'][0] += 1
     exp_dim = copy.deepcopy(exp)
     exp_dim['dims'] = [[f, 'length' if f == 'efix' else d] for f, d in exp_dim['dims']]
-    seq = [pix, pix_bad, exp, exp_bad, exp_dim]
+    exp_again = copy.deepcopy(exp)
+    exp_again.update(rpass=2, gen=2)                 # second read returns the same: accepted
+    exp_differs = copy.deepcopy(exp)
+    exp_differs.update(rpass=2, gen=2, str_ok=False)   # second read returns something else
+    seq = [pix, pix_bad, exp, exp_bad, exp_dim, dict(exp, gen=2), exp_again, dict(exp, gen=2), exp_differs]
     tf = ctx.tmp / 'c13-corrupt.ndjson'
     write_ndjson(tf, seq)
     tr = ctx.tlc('sqw/Trace_SqwContent.tla', workers=1, env={'TRACE_FILE': str(tf)}, timeout=300, count=False)
     require_ok(ctx, tr, 'Trace_SqwContent (corruption control)')
     rej = {r[1]: r[3] for r in tr.tagged('REJECT')}
     want = {2: ['all_pixels_in_order_rounded_once'], 4: ['run_ids_one_based_in_order'],
-            5: ['reader_labels_written_dimension']}
+            5: ['reader_labels_written_dimension'], 9: ['strings_as_supplied', 'second_read_equals_first_read']}
     if rej != want:
         raise MachineryError(f'corruption control: the trace specification judged {rej}')
-    ctx.extra['corruption_control'] = 'hand-made events accepted; lost pixel value, shifted run id, foreign dimension rejected'
+    ctx.extra['corruption_control'] = ('hand-made events accepted (also as second read / second build); lost pixel value, '
+                                       'shifted run id, foreign dimension, second read differing from the first rejected')
 
 
 def run(ctx):
@@ -129,16 +180,17 @@ def run(ctx):
     cfgname = 'MC_SqwContent_thorough.cfg' if ctx.thorough else 'MC_SqwContent.cfg'
     res = ctx.tlc('sqw/MC_SqwContent.tla', cfgname, timeout=900, workers=WORKERS, coverage=True)
     require_ok(ctx, res, 'SqwContent model')
-    require_actions(res, ['WriteMeta', 'WriteChunk', 'PixDone', 'WriteRuns', 'ReadBack'])
+    require_actions(res, ['WriteMeta', 'WriteChunk', 'PixDone', 'WriteRuns', 'ReadBack', 'Rebuild'])
     grid = sorted({(c[1], c[2], tuple(c[3])) for c in res.tagged('CFG')})
     if len(grid) < 100:
         raise MachineryError(f'only {len(grid)} configurations exported by TLC')
-    for neg in ('rows', 'stale', 'zerobased', 'zeroidx', 'firstchunk'):
+    for neg in ('rows', 'stale', 'zerobased', 'zeroidx', 'firstchunk', 'sortruns', 'inplace'):
         ctx.tlc('sqw/MC_SqwContent.tla', f'Neg_SqwContent_{neg}.cfg', expect_error=True, timeout=300, workers=WORKERS)
     ctx.extra['model_configurations'] = len(grid)
 
     events, cfgs = [], {}
     tid = 0
+    L.hostile_first_build(ctx.tmp)      # unjudged first use: single precision rows in convertible units, views
     # ---- 2a. the model's configurations on the real builder ---------------------------------------
     pairs = {}
     for n, chunk, runs in grid:
@@ -156,12 +208,21 @@ def run(ctx):
     # ---- 2b. random configurations -----------------------------------------------------------------------
     nsmall = 2500 if ctx.thorough else 110
     nbig = 400 if ctx.thorough else 22
+    n_second = 0
     for i in range(nsmall + nbig):
         force = [['pix'], ['pix', 'samp'], ['dnd', 'samp'], ['pix', 'inst', 'samp', 'dnd'], None][i % 5]
         intconv = i % 16 == 7
         cfg = L.random_config(rng, thorough=ctx.thorough, small=i < nsmall, force=(force or []) + ['pix'] if intconv
                               else force, intconv=intconv)
-        _one_file(ctx, cfg, tid, events, cfgs)
+        objs = _one_file(ctx, cfg, tid, events, cfgs)
+        tid += 1
+        if objs is not None and i % 5 == 2:
+            # the caller keeps his objects and writes them once more, elsewhere (the model's Rebuild step)
+            _one_file(ctx, _other_target(rng, cfg), tid, events, cfgs, objs=objs, gen=2)
+            n_second += 1
+            tid += 1
+    for npix, chunk, where in ((100_000, 30_000, 'file_str'), (65_537, None, 'bytesio')):
+        _one_file(ctx, L.large_config(rng, npix, chunk, where), tid, events, cfgs)   # upper end, in every run
         tid += 1
     if ctx.thorough:
         cfg = L.random_config(rng, thorough=True, small=True, force=['pix'])
@@ -169,6 +230,13 @@ def run(ctx):
         cfg['pix'] = L.rand_pix_recipe(rng, 100_000, cfg['nruns'])
         _one_file(ctx, cfg, tid, events, cfgs)
         tid += 1
+    # ---- 2c. history: a sample of the configurations above once more, last first ----------------------
+    again = rng.sample(sorted(cfgs), min(len(cfgs), 300 if ctx.thorough else 30))
+    for t in sorted(again, reverse=True):
+        _one_file(ctx, cfgs[t], tid, events, cfgs, gen=3)
+        tid += 1
+    ctx.extra['second_files_from_the_same_objects'] = n_second
+    ctx.extra['files_written_again_in_reversed_order'] = len(again)
     ctx.extra['files_written'] = tid
     ctx.extra['block_events'] = len(events)
     ctx.extra['guard_band_acceptances'] = sum(e.get('namb', 0) for e in events)
@@ -185,17 +253,38 @@ def run(ctx):
         raise MachineryError(f'trace validation incomplete: {done} vs {len(events)} events')
     ctx.traces(len(events))
     _corruption_control(ctx)
+    rejected = {line: set(clauses) for _, line, _rtid, clauses, _bad in tr.tagged('REJECT')}
+    # the verdict on the same block of the same configuration when it was produced / read for the first time
+    first_seen = {}
+    for i, e in enumerate(events):
+        if e['gen'] == 1 and e['rpass'] == 1:
+            first_seen[(_content_id(cfgs[e['tid']]), e['ev'], e['src'], e.get('which'))] = i + 1
     for _, line, rtid, clauses, baddims in tr.tagged('REJECT'):
         ev = events[line - 1]
         cfg = cfgs[rtid]
         block = ev.get('which') or BLOCK_OF.get(ev['ev'], ev['ev'])
         who = 'independent decoder' if ev['src'] == 'dec' else 'Sqw.read_data_block'
         detail = {'cfg': _brief(cfg), 'event': {k: v for k, v in ev.items() if k not in ('ids', 'ranks')}}
+        # a verdict that the first production of the same content (resp. the first read of the same block of the
+        # same file) did not get is a matter of history and is named as such; the same defect showing again
+        # keeps its key
+        gen_twin = (first_seen.get((_content_id(cfg), ev['ev'], ev['src'], ev.get('which'))) if ev['gen'] > 1
+                    else None)
+
+        def hist(cl, ev=ev, line=line, gen_twin=gen_twin):
+            h = ''
+            if ev['gen'] > 1 and not set(cl) <= rejected.get(gen_twin, set()):
+                h += HISTORY[ev['gen']]
+            if ev['rpass'] > 1 and not set(cl) <= rejected.get(line - 1, set()):
+                h += ' [second read of the block]'
+            return h
+
         fields = sorted(baddims.get('$set', [])) if isinstance(baddims, dict) else []
         labelled = dict(ev.get('dims', []))
         # one signature per mislabelled field (call site of the reader), one for the remaining clauses
         for f in fields:
-            ctx.violation(f'{who}({block}): reader_labels_written_dimension [{f} labelled {labelled.get(f)}]', detail)
+            ctx.violation(f'{who}({block}): reader_labels_written_dimension [{f} labelled {labelled.get(f)}]'
+                          + hist(['reader_labels_written_dimension']), detail)
         rest = [c for c in clauses if not (c == 'reader_labels_written_dimension' and fields)]
         if rest:
             key = f'{who}({block}): {"+".join(rest)}'
@@ -207,7 +296,9 @@ def run(ctx):
                 key += f' [{L.energy_class(cfg)}]'
             if 'object_content' in rest:
                 key += ' [' + ','.join(ev.get('badflags', [])) + ']'
-            ctx.violation(key, detail)
+            if ev['ev'] in ('exp', 'dndmeta') and L.num_class(cfg, ev['ev']):
+                key += f' [{L.num_class(cfg, ev["ev"])}]'
+            ctx.violation(key + hist(rest), detail)
 
 META = {
     'design_ref': 'DESIGN.md §5 C13',
